@@ -532,7 +532,7 @@ impl<'ast> syn::visit::Visit<'ast> for ArmCollector {
 pub fn run_c19(ctx: &Ctx) -> Report {
     let mut rep = Report::new("C19");
     rep.corr_module = "Macros".into();
-    rep.expect_classes(&["gen:hashed", "gen:plain", "gen:wrong-start", "gen:missing-message", "gen:nonzero-nonce", "compiled", "table"]);
+    rep.expect_classes(&["gen:hashed", "gen:plain", "gen:wrong-start", "gen:missing-message", "gen:nonzero-nonce", "compiled", "table", "gen:boundary-start:exactly-7000", "gen:boundary-start:below-7000", "gen:boundary-start:near-u32-max", "gen:last-code-at-u32-max"]);
     let mut rng = Rng::new(ctx.seed.wrapping_mul(199).wrapping_add(19));
 
     // ---- (c) the three library enums, scanned over their code range
